@@ -11,7 +11,7 @@ for l in open(os.path.join(ROOT,'results.txt')):
         cid,rc=tok.split(':')
         results.setdefault(sid,{}).setdefault(cid,[]).append(int(rc))
 rows=[]
-for d in sorted(glob.glob(os.path.join(ROOT,'C[0-9][0-9][A-J]'))):
+for d in sorted(glob.glob(os.path.join(ROOT,'C[0-9][0-9][A-Z]'))):
     sid=os.path.basename(d)
     if not os.path.exists(os.path.join(d,'patch.diff')): continue
     log=open(os.path.join(d,'validation.log')).read()
